@@ -2,9 +2,14 @@
 
 correspondence: the Lean model `GSV/Model/Spectral.lean` (run on Float by the driver) against the real
     gstools code: rad_fac, spectral_density / spectrum / spectral_rad_pdf / ln_spectral_rad_pdf / cdf / ppf of
-    Gaussian, Exponential, Matern, JBessel; has_cdf / has_ppf / dist_func / override tables for all 17 classes.
+    Gaussian, Exponential, Matern, JBessel; has_cdf / has_ppf / dist_func / override tables for all 17 classes;
+    construct / change-in-place histories of all 17 classes against the settings state machine (parameters, transform
+    object of the numerical default, formulas of the 4 modelled classes at the reached state); the two-scale
+    combination of the TPLGaussian / TPLExponential densities.
 search: the real API against independent oracles (radial Fourier quadrature of `correlation`, inverse transform
-    for the compactly supported JBessel spectrum, log-grid quadrature of the radial pdf, finite differences).
+    for the compactly supported JBessel spectrum, log-grid quadrature of the radial pdf, finite differences, mass of
+    the true spectral measure in a ball), on freshly built models and on models modified in place (compared with
+    freshly built ones and with the oracles).
 """
 import warnings
 import numpy as np
@@ -20,6 +25,13 @@ ASSUMPTIONS = [
     "hankel default are covered only by the quadrature search, whose tolerances are stated in its summary",
     "search oracle: Gauss-Legendre panels on a mesh graded towards r=0 and the support edge + Wynn-epsilon summation of "
     "the oscillatory tail; its own accuracy (<=1e-12 on the families with closed forms) is part of the trusted base",
+    "in-place histories: the settings state machine of GSV/Model/Spectral.lean (dim, len_scale, rescale, var, one shape "
+    "argument, hankel_kw, transform object) is tied to the code through public observables only: parameters read back "
+    "exactly, and the numerical default CovModel.spectral_density(model, k) == hankel.SymmetricFourierTransform(ndim, **kw)"
+    ".transform(model.correlation, k) for the (ndim, kw) the MODEL predicts; the transform itself (T in the theorems) is the "
+    "hankel package, uninterpreted; nugget/anis/angles/bounds/integral_scale are not in the state machine (search only)",
+    "TPLGaussian/TPLExponential: the single-scale closed forms (hyp2f1, incomplete gamma) are parameters of the model; "
+    "the correspondence feeds the real single-scale function evaluated at the lengths the model computes",
 ]
 
 CLASSES = ["Gaussian", "Exponential", "Matern", "Integral", "Stable", "Rational", "Cubic", "Linear", "Circular",
@@ -277,14 +289,304 @@ def correspondence(ctx):
         if not ok.all():
             i = int(np.argmin(ok))
             dis.append(dict(case, what=f"{cls}:{what}", x=float(xs[i]), lean=float(got[i]), gstools=float(real[i])))
+    # -- (e) construct / change in place histories against the settings state machine of the model
+    e_ev, e_dis, e_samples = _history_correspondence(ctx, rng, count, distinct)
+    ev += e_ev
+    dis += e_dis
+    samples += e_samples[:2]
+    # -- (f) truncated power law densities: which lengths are combined, and how
+    f_ev, f_dis = _tpl_correspondence(ctx, rng, count, distinct)
+    ev += f_ev
+    dis += f_dis
     return {"evaluations": ev, "distinct_nontrivial": len(distinct),
             "rule": "one evaluation = one (class, dim, len_scale, rescale, var, nu, function, argument) value computed by the "
                     "real gstools method and by the Lean model on Float; parameters: fixed boundary sets (nu at 20 / 20+eps / "
                     "bounds, JBessel nu at d/2-1 ...) + log-uniform random; arguments: 0, the isclose band around 1e-8, "
                     "k=1/len, log-uniform bulk, negatives, u in [0, 0.999]; distinct = distinct tuples, non-trivial = finite "
                     "non-zero value (tables and rad_fac counted per (class, dim) / (dim, r)); compared to 1e-11 relative "
-                    "(cdf 1e-12+1e-13 abs, ppf 1e-9)",
+                    "(cdf 1e-12+1e-13 abs, ppf 1e-9).  Histories (all 17 classes): random constructor arguments (dim given or "
+                    "defaulted, hankel_kw given or not) followed by 1-5 setter calls (dim incl. the rejected dim=0, len_scale, "
+                    "rescale incl. None and negative, var, shape argument, hankel_kw None/partial/complete); after every call "
+                    "the public parameters (dim, len_scale, rescale, var, shape, hankel_kw) are compared exactly with the "
+                    "model state, the numerical default density CovModel.spectral_density(model, k) is compared bit for bit "
+                    "with hankel SymmetricFourierTransform(ndim, **kw) built from the MODEL's transform token applied to "
+                    "model.correlation, and for the 4 modelled classes every spectral function of the modified object is "
+                    "compared with the Lean formulas evaluated at the model state; one evaluation = one compared value, "
+                    "distinct = (class, history, step, function, argument).  TPLGaussian/TPLExponential: spectral_density "
+                    "against the model's two-scale combination fed with the real single-scale function at the model's lengths "
+                    "(1e-12 of the larger term), len_low in {0, <=1e-8, >0} x rescale != 1",
             "samples": samples, "disagreements": dis[:10], "distribution": dist}
+
+
+PRIMARY = {"Matern": "nu", "Integral": "nu", "Stable": "alpha", "Rational": "alpha", "SuperSpherical": "nu",
+           "JBessel": "nu", "TPLGaussian": "hurst", "TPLExponential": "hurst", "TPLStable": "hurst", "TPLSimple": "nu"}
+HK_KEYS = ["a", "b", "N", "h", "alt"]
+
+
+def _hk_encode(d):
+    """hankel_kw dictionary (possibly partial) -> (mask, values) over the keys a, b, N, h, alt"""
+    d = d or {}
+    return [1 if k in d else 0 for k in HK_KEYS], [float(d.get(k, 0.0)) for k in HK_KEYS]
+
+
+def _hk_decode(v):
+    return dict(a=float(v[0]), b=float(v[1]), N=int(v[2]), h=float(v[3]), alt=bool(v[4]))
+
+
+def _history_correspondence(ctx, rng, count, distinct):
+    import gstools.covmodel.base as cvb
+    from hankel import SymmetricFourierTransform as SFT
+    n_hist = ctx.scale(4, 30)
+    ev, dis, samples = 0, [], []
+    runs = []       # (cls, init, modelled ops, real objects states)
+    ops_out = []
+    for cls in CLASSES:
+        prim = PRIMARY.get(cls)
+        for h in range(n_hist):
+            init, ops = gen_history(rng, cls, 1 + rng.randint(5), force_dim=(h % 2 == 0))
+            # keep the operations the state machine models; add the rejected dimension 0 and a negative rescale now and then
+            mops = []
+            for name, val in ops:
+                if name in ("dim", "var", "hankel_kw", "rescale"):
+                    mops.append((name, val))
+                elif name == "len_scale":
+                    mops.append((name, val))
+                elif name.startswith("opt:") and name[4:] == prim:
+                    mops.append((name, val))
+                elif name == "opts":
+                    mops.append((name, val))
+            if rng.rand() < 0.25:
+                mops.insert(rng.randint(len(mops) + 1), ("dim", 0))
+            if rng.rand() < 0.25:
+                mops.insert(rng.randint(len(mops) + 1), ("rescale", -float(np.exp(rng.uniform(-1, 1)))))
+            try:
+                m = _construct(cls, init)
+            except Exception as e:
+                dis.append({"what": "history:constructor", "cls": cls, "init": repr(init), "error": repr(e)})
+                continue
+            kinds, vals, masks, hvals = [], [], [], []
+            mk, hv = _hk_encode(init["hankel_kw"])
+            masks += mk
+            hvals += hv
+            states = [_public_state(m, prim)]
+            sft_obs = [_default_density_probe(m)]
+            evals = [_modelled_eval(m, cls, rng)]
+            applied = []
+            for name, val in mops:
+                mk, hv = [0] * 5, [0.0] * 5
+                err = None
+                try:
+                    _apply(m, name, val)
+                except Exception as e:
+                    err = type(e).__name__
+                if name == "dim":
+                    kinds.append(0); vals.append(float(val))
+                    if (val < 1) != (err == "ValueError"):
+                        dis.append({"what": "history:dim-error", "cls": cls, "dim": val, "raised": err})
+                elif err is not None:
+                    break       # other raising setters: parameter-state property (C14), not modelled here
+                elif name == "len_scale":
+                    kinds.append(1); vals.append(float(val[0] if isinstance(val, list) else val))
+                elif name == "rescale":
+                    kinds.append(2); vals.append(float(m.default_rescale()) if val is None else float(val))
+                elif name == "var":
+                    kinds.append(3); vals.append(float(val))
+                elif name.startswith("opt:"):
+                    kinds.append(4); vals.append(float(val))
+                elif name == "opts":
+                    if prim is None:
+                        continue
+                    kinds.append(4); vals.append(float(val[prim]))
+                elif name == "hankel_kw":
+                    if val is None:
+                        kinds.append(5); vals.append(0.0)
+                    else:
+                        kinds.append(6); vals.append(0.0)
+                        mk, hv = _hk_encode(val)
+                masks += mk
+                hvals += hv
+                applied.append(_jsonop((name, val)))
+                states.append(_public_state(m, prim))
+                sft_obs.append(_default_density_probe(m, rng.rand() < 0.34))
+                evals.append(_modelled_eval(m, cls, rng))
+            nu0 = float(init["opt"].get(prim, 0.0)) if prim else 0.0
+            resc0 = float(m.default_rescale()) if init["rescale"] is None else float(init["rescale"])
+            ops_out.append(dict(op="spec_hist", dim=3 if init["dim"] is None else int(init["dim"]), len=f2b(init["len_scale"]),
+                                rescale=f2b(resc0), var=f2b(init["var"]), nu=f2b(nu0), kinds=kinds, vals=fbits(vals),
+                                masks=masks, hvals=fbits(hvals), init_hankel=init["hankel_kw"] is not None))
+            runs.append((cls, prim, dict(init, opt=_jsonable(init["opt"])), applied, states, sft_obs, evals))
+    results = run_driver(ops_out)
+    eval_ops, eval_refs = [], []
+    for (cls, prim, init, applied, states, sft_obs, evals), res in zip(runs, results):
+        if isinstance(res, dict):
+            dis.append({"what": "history:driver-error", "cls": cls, "detail": res})
+            continue
+        rows = [unbits([int(x) for x in r]) for r in res]
+        if len(rows) != len(states):
+            dis.append({"what": "history:length", "cls": cls, "lean": len(rows), "gstools": len(states)})
+            continue
+        for j, (row, st, (k, dens)) in enumerate(zip(rows, states, sft_obs)):
+            case = dict(cls=cls, init=init, ops=applied[:j], step=j)
+            count("history:states")
+            lean_pub = dict(dim=int(row[0]), len_scale=float(row[1]), rescale=float(row[2]), hankel_kw=_hk_decode(row[5:10]))
+            if cls not in ("TPLGaussian", "TPLExponential", "TPLStable"):
+                lean_pub["var"] = float(row[3])      # TPL models: var depends on the lengths through var_factor (property C14)
+            if prim:
+                lean_pub["shape"] = float(row[4])
+            real_pub = {kk: st[kk] for kk in lean_pub}
+            ev += len(lean_pub)
+            if lean_pub != real_pub:
+                dis.append(dict(case, what="history:parameters", lean=lean_pub, gstools=real_pub))
+                continue
+            # the transform token of the model, realised with the hankel package, against the real numerical default
+            tok_dim, tok_kw = int(row[10]), _hk_decode(row[11:16])
+            with warnings.catch_warnings(), np.errstate(all="ignore"):
+                warnings.simplefilter("ignore")
+                want = np.asarray(SFT(ndim=tok_dim, **tok_kw).transform(st["correlation"], k, ret_err=False), dtype=float)
+            ev += len(k)
+            count(f"history:sft:d{tok_dim}:N{tok_kw['N']}", len(k))
+            for x, g in zip(k, dens):
+                if np.isfinite(g) and g != 0.0:
+                    distinct.add(("history", cls, repr(init), j, "default-density", float(x)))
+            if not np.array_equal(want, dens, equal_nan=True):
+                i = int(np.argmax(~(_close(want, dens, 0.0))))
+                dis.append(dict(case, what="history:default-density", k=float(k[i]), transform_token=dict(ndim=tok_dim, **tok_kw),
+                                lean=float(want[i]), gstools=float(dens[i]), model_dim=lean_pub["dim"]))
+            if len(samples) < 2 and j == len(states) - 1 and j > 0:
+                samples.append(dict(case, k=float(k[-1]), lean=float(want[-1]), gstools=float(dens[-1])))
+            # the modelled classes: Lean formulas at the model state against the modified object
+            if cls in MODELLED:
+                for what, (x, real) in evals[j].items():
+                    eval_ops.append(dict(op="spec_eval", cls=cls, dim=int(row[0]), len=f2b(row[1]), rescale=f2b(row[2]),
+                                         var=f2b(row[3]), nu=f2b(row[4]), x=fbits(x), what=what))
+                    eval_refs.append((case, what, x, real, float(row[1]) / float(row[2]), float(row[4])))
+    for (case, what, x, real, ell, nu), res in zip(eval_refs, run_driver(eval_ops)):
+        got = _decode(res)
+        cls = case["cls"]
+        if isinstance(got, dict):
+            dis.append(dict(case, what="history:driver-error:" + what, detail=got))
+            continue
+        if (got is None) != (real is None):
+            dis.append(dict(case, what="history:offered:" + what, lean=None if got is None else "values",
+                            gstools=None if real is None else "values"))
+            ev += 1
+            continue
+        if got is None:
+            ev += 1
+            continue
+        rt, at = TOL[what]
+        ok = _close(got, real, rt, at)
+        ev += len(x)
+        count(f"history:{cls}:{what}", len(x))
+        for xi, gi in zip(x, got):
+            if np.isfinite(gi) and gi != 0.0:
+                distinct.add(("history", cls, repr(case["init"]), case["step"], what, float(xi)))
+        if not ok.all():
+            i = int(np.argmin(ok))
+            dis.append(dict(case, what=f"history:{cls}:{what}", x=float(x[i]), lean=float(got[i]), gstools=float(real[i])))
+    return ev, dis, samples
+
+
+def _public_state(m, prim):
+    """public observables of a model object (the correlation is captured as a frozen copy of the current parameters)"""
+    import copy
+    return dict(dim=int(m.dim), len_scale=float(m.len_scale), rescale=float(m.rescale), var=float(m.var),
+                shape=float(getattr(m, prim)) if prim else None, hankel_kw=dict(m.hankel_kw),
+                correlation=copy.deepcopy(m).correlation)
+
+
+def _default_density_probe(m, with_zero=True):
+    """the numerical default `CovModel.spectral_density` of the object (also for classes that override it); k = 0 is a
+    separate (slow, scipy.quad) branch of the hankel package and is probed on a third of the states"""
+    import gstools.covmodel.base as cvb
+    ell = m.len_rescaled
+    k = np.array([0.0, 0.3, 1.1, 4.0] if with_zero else [0.3, 1.1, 4.0]) / ell
+    with warnings.catch_warnings(), np.errstate(all="ignore"):
+        warnings.simplefilter("ignore")
+        return k, np.asarray(cvb.CovModel.spectral_density(m, k), dtype=float)
+
+
+def _modelled_eval(m, cls, rng):
+    if cls not in MODELLED:
+        return {}
+    ell = m.len_rescaled
+    k = _xgrid(rng, ell, 4)
+    u = _ugrid(rng, 4)
+    out = {}
+    for what in WHATS:
+        if what in ("cdf", "ppf") and cls not in ("Gaussian", "Exponential"):
+            continue
+        x = u if what == "ppf" else (np.abs(k) if what == "cdf" else k)
+        out[what] = (x, _real_eval(m, what, x))
+    return out
+
+
+def _tpl_correspondence(ctx, rng, count, distinct):
+    """TPLGaussian / TPLExponential.spectral_density against `tplDensity` of the model: the model says which lengths
+    are combined; the single-scale values at exactly those lengths come from the real single-scale function
+    (`tpl_*_spec_dens` with len_low = 0), the model combines them."""
+    from gstools.tools import special as gsp
+    single = {"TPLGaussian": gsp.tpl_gau_spec_dens, "TPLExponential": gsp.tpl_exp_spec_dens}
+    n = ctx.scale(6, 40)
+    ev, dis = 0, []
+    cases = []
+    for cls in ("TPLGaussian", "TPLExponential"):
+        for d in (1, 2, 3):
+            for i in range(n):
+                hurst = float(rng.uniform(0.15, 0.95))
+                ls = float(np.exp(rng.uniform(np.log(0.3), np.log(8.0))))
+                low = [float(np.exp(rng.uniform(np.log(0.05), np.log(3.0)))), 0.0,
+                       float(np.exp(rng.uniform(np.log(0.05), np.log(3.0)))), 5e-9][i % 4]
+                resc = [None, float(np.exp(rng.uniform(np.log(0.3), np.log(3.0)))),
+                        float(np.exp(rng.uniform(np.log(0.3), np.log(3.0))))][i % 3]
+                kw = dict(len_scale=ls, hurst=hurst, len_low=low)
+                if resc is not None:
+                    kw["rescale"] = resc
+                m = make(cls, d, **kw)
+                if (i // 2) % 2 == 1:      # reach the same parameters in place
+                    m = make(cls, d, hurst=0.5)
+                    m.len_low, m.rescale, m.len_scale, m.hurst = low, (1.0 if resc is None else resc), ls, hurst
+                cases.append((cls, d, kw, m))
+    res1 = run_driver([dict(op="spec_tpl_lengths", len=f2b(m.len_scale), len_low=f2b(m.len_low), rescale=f2b(m.rescale))
+                       for (_, _, _, m) in cases])
+    ops, refs = [], []
+    for (cls, d, kw, m), r in zip(cases, res1):
+        ell, low, up, close, up_cor = unbits([int(x) for x in r])
+        k = np.concatenate([[0.0], np.exp(rng.uniform(np.log(0.05), np.log(30.0), 6)) / ell])
+        with warnings.catch_warnings(), np.errstate(all="ignore"):
+            warnings.simplefilter("ignore")
+            f = single[cls]
+            base = np.asarray(f(k, d, ell, m.hurst), dtype=float)
+            s_up = np.asarray(f(k, d, up, m.hurst), dtype=float)
+            s_low = np.asarray(f(k, d, low, m.hurst), dtype=float) if low > 0 else np.zeros_like(k)
+            real = np.asarray(m.spectral_density(k), dtype=float)
+        # the lengths the correlation uses (public properties) against the model's
+        pub = (float(m.len_rescaled), float(m.len_low_rescaled), float(m.len_up_rescaled))
+        ev += 3
+        if pub != (float(ell), float(low), float(up_cor)):
+            dis.append(dict(what=f"tpl-lengths:{cls}", cls=cls, dim=d, kw=_jsonable(kw), lean=[float(ell), float(low), float(up_cor)],
+                            gstools=list(pub)))
+        ops.append(dict(op="spec_tpl_mix", len=f2b(m.len_scale), len_low=f2b(m.len_low), rescale=f2b(m.rescale),
+                        hurst=f2b(m.hurst), base=fbits(base), up=fbits(s_up), low=fbits(s_low)))
+        fu, fl = up ** (2 * m.hurst), low ** (2 * m.hurst)
+        scale = np.abs(base) if close else (np.abs(fu * s_up) + np.abs(fl * s_low)) / abs(fu - fl)
+        refs.append((cls, d, kw, k, real, scale, bool(close)))
+    for (cls, d, kw, k, real, scale, close), r in zip(refs, run_driver(ops)):
+        got = _decode(r)
+        if isinstance(got, dict):
+            dis.append(dict(what="tpl-mix:driver-error", cls=cls, detail=got))
+            continue
+        with np.errstate(all="ignore"):
+            ok = (np.abs(got - real) <= 1e-12 * scale) | (got == real) | (np.isnan(got) & np.isnan(real))
+        ev += len(k)
+        count(f"tpl-mix:{cls}:{'single' if close else 'two-scale'}", len(k))
+        for x in k:
+            distinct.add(("tpl-mix", cls, d, repr(sorted(kw.items())), float(x)))
+        if not ok.all():
+            i = int(np.argmin(ok))
+            dis.append(dict(what=f"tpl-mix:{cls}", cls=cls, dim=d, kw=_jsonable(kw), k=float(k[i]), lean=float(got[i]),
+                            gstools=float(real[i])))
+    return ev, dis
 
 
 # ------------------------------------------------------------------------------------------ search: oracles
@@ -311,12 +613,15 @@ def _wynn(s):
     return res
 
 
-def _panels(f, edges):
+_GX10, _GW10 = leggauss(10)
+
+
+def _panels(f, edges, gx=_GX, gw=_GW):
     a = edges[:-1][:, None]
     b = edges[1:][:, None]
-    x = 0.5 * (b - a) * _GX[None, :] + 0.5 * (a + b)
+    x = 0.5 * (b - a) * gx[None, :] + 0.5 * (a + b)
     fx = np.asarray(f(x.ravel()), dtype=float).reshape(x.shape)
-    return 0.5 * (b - a)[:, 0] * (fx @ _GW)
+    return 0.5 * (b - a)[:, 0] * (fx @ gw)
 
 
 def radial_ft(cor, d, k, ell, support=None, ntail=30, r1=12.0):
@@ -360,6 +665,41 @@ def density_at_zero(cor, d, ell, support=None):
     uni = np.linspace(geo[-1], end, int(np.ceil(end / (ell / 8))) + 1)
     edges = np.concatenate([[0.0], geo, uni[1:]])
     return (2 * np.pi) ** (-d) * area * _panels(lambda r: r ** (d - 1) * cor(r), edges).sum()
+
+
+def ball_mass(cor, d, K, ell, support=None, ntail=30, r1=12.0):
+    """mass of the TRUE spectral measure of the correlation `cor` in the ball |k| <= K (total mass cor(0) = 1):
+        int_{|k|<=K} S(k) d^dk = 2^(1-d/2)/Gamma(d/2) * K^(d/2) * int_0^inf r^(d/2-1) cor(r) J_(d/2)(K r) dr
+    (Fourier transform of the indicator of the ball).  10-point Gauss-Legendre panels; mesh: geometric towards r = 0 inside the first quarter
+    oscillation, then uniform quarter oscillations (<= ell/4) up to the support / 12*ell, geometric towards the support
+    edge; non-compact: 30 further half periods summed with Wynn's epsilon algorithm (guarded against amplified
+    rounding noise).  Agrees with the closed-form radial cdfs of Gaussian and Exponential (d = 1, 2, 3, K*len = 0.5 ... 5000)
+    to 3e-12."""
+    import scipy.special as sps
+
+    def f(r):
+        return r ** (d / 2 - 1) * cor(r) * sps.jv(d / 2, K * r)
+    h = min(np.pi / (2 * K), ell / 4)
+    geo = h * 0.5 ** np.arange(40, -1, -1)
+    end = support if support is not None else max(r1 * ell, 2 * np.pi / K)
+    n = max(1, int(np.ceil((end - h) / h)))
+    uni = np.linspace(h, end, n + 1)
+    edges = np.concatenate([[0.0], geo, uni[1:]])
+    if support is not None:
+        g2 = support - h * 0.5 ** np.arange(0, 40)
+        edges = np.unique(np.concatenate([edges[edges < support - h], g2[g2 > 0], [support]]))
+    val = _panels(f, edges, _GX10, _GW10).sum()
+    if support is None:
+        T = np.pi / K
+        allx = np.linspace(end, end + ntail * T, ntail * 2 + 1)
+        parts = _panels(f, allx, _GX10, _GW10).reshape(ntail, 2).sum(axis=1)
+        ps = val + np.concatenate([[0.0], np.cumsum(parts)])
+        amp = np.max(np.abs(parts))
+        w = _wynn(list(ps)) if amp > 1e-15 * abs(val) else ps[-1]
+        # the limit of the (alternating) half-period sums lies within one term of the last partial sum; an extrapolation
+        # outside that range is rounding noise amplified by the epsilon algorithm
+        val = w if abs(w - ps[-1]) <= 2.0 * amp else 0.5 * (ps[-1] + ps[-2])
+    return 2 ** (1 - d / 2) / sps.gamma(d / 2) * K ** (d / 2) * val
 
 
 def inverse_ft_compact(dens, d, r, kmax, beta):
@@ -440,6 +780,12 @@ def _configs(rng, cls, d, n_random):
         r = rs()
         if r is not None:
             kw["rescale"] = r
+        if cls in ("TPLGaussian", "TPLExponential", "TPLStable") and i % 2 == 0:
+            # parameters with a `_rescaled` counterpart must differ from it: len_low > 0 together with rescale != 1
+            kw["len_low"] = float(np.exp(rng.uniform(np.log(0.05), np.log(3.0))))
+            kw["rescale"] = float(np.exp(rng.uniform(np.log(0.3), np.log(3.0)))) * (1.0 if rng.rand() < 0.5 else 0.5)
+            if abs(kw["rescale"] - 1.0) < 0.05:
+                kw["rescale"] = 0.7
         out.append(kw)
     return out
 
@@ -609,6 +955,41 @@ def near_origin_search(ctx, viol):
     return ev
 
 
+def _defs_check(m, cls, d, case, k, viol, prefix=""):
+    """definitions on one model object of CURRENT dimension d: spectrum = var*density (exact), spectral_rad_pdf = area of
+    the (d-1)-sphere * |density| with the r~0 rule and clipping (independent area formula), ln pdf = log pdf, signs"""
+    import scipy.special as sps
+    with warnings.catch_warnings(), np.errstate(all="ignore"):
+        warnings.simplefilter("ignore")
+        dens = np.asarray(m.spectral_density(k), dtype=float)
+        spec = np.asarray(m.spectrum(k), dtype=float)
+        pdf = np.asarray(m.spectral_rad_pdf(k), dtype=float)
+        lnp = np.asarray(m.ln_spectral_rad_pdf(k), dtype=float)
+        # spectrum = var * density (exact: one multiplication)
+        if not np.array_equal(spec, dens * m.var, equal_nan=True):
+            viol.append({"key": prefix + f"spectrum-def:{cls}", "what": "spectrum != var * spectral_density", "case": case})
+        # definition of the radial pdf from the independent surface-area formula
+        area = 2 * np.pi ** (d / 2) / sps.gamma(d / 2) * k ** (d - 1)
+        want = np.maximum(area * np.abs(dens), 0.0)
+        want[~np.isfinite(want)] = 0.0
+        if d > 1:
+            want[np.abs(k) <= 1e-8] = 0.0
+        if not np.allclose(pdf, want, rtol=1e-12, atol=0.0):
+            viol.append({"key": prefix + f"rad-pdf-def:{cls}", "what": "spectral_rad_pdf != sphere area * |density| "
+                         "(with the r~0 rule and clipping)", "case": dict(case, k=k.tolist(), got=pdf.tolist(), want=want.tolist())})
+        if (pdf < 0).any() or not np.isfinite(pdf).all():
+            viol.append({"key": prefix + f"rad-pdf-sign:{cls}", "what": "spectral_rad_pdf negative or non-finite", "case": case})
+        with np.errstate(divide="ignore"):
+            if not np.allclose(lnp, np.log(pdf), rtol=1e-13, atol=1e-13, equal_nan=True):
+                viol.append({"key": prefix + f"ln-rad-pdf:{cls}", "what": "ln_spectral_rad_pdf != log(spectral_rad_pdf)", "case": case})
+        # non-negativity of the density itself
+        peak = np.max(np.abs(dens))
+        lim = -1e-13 * peak if cls in ANALYTIC else -0.15 * peak   # rounding of the TPL difference of two scales
+        if (dens < lim).any():
+            viol.append({"key": prefix + f"density-sign:{cls}", "what": "spectral density negative", "case": dict(case, k=k.tolist(), density=dens.tolist())})
+    return 4 * len(k)
+
+
 def pdf_search(ctx, n_random, viol):
     """B-E: rad_pdf definition + normalisation, cdf' = pdf, ppf/cdf inverses, signs, spectrum = var*density"""
     from gstools.covmodel import tools as cvt
@@ -630,13 +1011,7 @@ def pdf_search(ctx, n_random, viol):
                     warnings.simplefilter("ignore")
                     k = np.concatenate([[0.0, 5e-9, 3e-8], np.exp(rng.uniform(np.log(0.05), np.log(8.0), 6)) / ell])
                     dens = np.asarray(m.spectral_density(k), dtype=float)
-                    spec = np.asarray(m.spectrum(k), dtype=float)
-                    pdf = np.asarray(m.spectral_rad_pdf(k), dtype=float)
-                    lnp = np.asarray(m.ln_spectral_rad_pdf(k), dtype=float)
-                    ev += 4 * len(k)
-                    # spectrum = var * density (exact: one multiplication)
-                    if not np.array_equal(spec, dens * m.var, equal_nan=True):
-                        viol.append({"key": f"spectrum-def:{cls}", "what": "spectrum != var * spectral_density", "case": case})
+                    ev += _defs_check(m, cls, d, case, k, viol)
                     wide = np.geomspace(1e-9, 1e9, 109) / ell if cls in ANALYTIC else k
                     wd = np.concatenate([dens, np.asarray(m.spectral_density(wide), dtype=float)])
                     wk = np.concatenate([k, wide])
@@ -647,26 +1022,6 @@ def pdf_search(ctx, n_random, viol):
                         viol.append({"key": "spectrum:TPLExponential-large-k" if big else f"density-nonfinite:{cls}",
                                      "what": "spectral_density is NaN/inf at a finite wave number (probed on k*len in [1e-9, 1e9])",
                                      "case": dict(case, k=float(wk[i]), k_len=float(wk[i] * ell), reported=repr(wd[i]))})
-                    # definition of the radial pdf from the independent surface-area formula
-                    import scipy.special as sps
-                    area = 2 * np.pi ** (d / 2) / sps.gamma(d / 2) * k ** (d - 1)
-                    want = np.maximum(area * np.abs(dens), 0.0)
-                    want[~np.isfinite(want)] = 0.0
-                    if d > 1:
-                        want[np.abs(k) <= 1e-8] = 0.0
-                    if not np.allclose(pdf, want, rtol=1e-12, atol=0.0):
-                        viol.append({"key": f"rad-pdf-def:{cls}", "what": "spectral_rad_pdf != sphere area * |density| "
-                                     "(with the r~0 rule and clipping)", "case": dict(case, k=k.tolist(), got=pdf.tolist(), want=want.tolist())})
-                    if (pdf < 0).any() or not np.isfinite(pdf).all():
-                        viol.append({"key": f"rad-pdf-sign:{cls}", "what": "spectral_rad_pdf negative or non-finite", "case": case})
-                    with np.errstate(divide="ignore"):
-                        if not np.allclose(lnp, np.log(pdf), rtol=1e-13, atol=1e-13, equal_nan=True):
-                            viol.append({"key": f"ln-rad-pdf:{cls}", "what": "ln_spectral_rad_pdf != log(spectral_rad_pdf)", "case": case})
-                    # non-negativity of the density itself
-                    peak = np.max(np.abs(dens))
-                    lim = -1e-13 * peak if cls in ANALYTIC else -0.15 * peak   # rounding of the TPL difference of two scales
-                    if (dens < lim).any():
-                        viol.append({"key": f"density-sign:{cls}", "what": "spectral density negative", "case": dict(case, k=k.tolist(), density=dens.tolist())})
                     if cls == "TPLExponential":
                         for kl in (1e2, 1e5, 1e6, 1e7):
                             got = float(m.spectral_density(np.array([kl / ell]))[0])
@@ -811,6 +1166,329 @@ def _pdf_mass(m, cls, d, ell):
     return total, tol, "analytic"
 
 
+# ------------------------------------------------------------------------------------------ search: histories
+HANKEL_DEFAULT = dict(a=-1, b=1, N=200, h=0.001, alt=True)
+VALID_DIMS = {"Linear": (1,), "Circular": (1, 2), "Spherical": (1, 2, 3), "Cubic": (1, 2, 3)}
+INT_SCALE_OK = ["Gaussian", "Exponential", "Matern", "Integral", "Stable", "Rational", "Cubic", "Linear", "Circular",
+                "Spherical", "HyperSpherical", "SuperSpherical"]
+OPT_NAMES = {"Matern": ["nu"], "Integral": ["nu"], "Stable": ["alpha"], "Rational": ["alpha"], "SuperSpherical": ["nu"],
+             "JBessel": ["nu"], "TPLGaussian": ["hurst", "len_low"], "TPLExponential": ["hurst", "len_low"],
+             "TPLStable": ["hurst", "alpha", "len_low"], "TPLSimple": ["nu"]}
+
+
+def _opt_draw(rng, cls):
+    """shape arguments of class `cls` valid in every dimension 1..4 (dimension dependent bounds taken at d = 4, so a
+    history may pass through any dimension and the resulting parameters can always be given to a constructor)"""
+    kw = _configs(rng, cls, 4, 2)[-1 - rng.randint(2)]
+    kw = {k: v for k, v in kw.items() if k not in ("len_scale", "rescale")}
+    if cls in ("TPLGaussian", "TPLExponential", "TPLStable") and "len_low" not in kw:
+        kw["len_low"] = 0.0
+    return kw
+
+
+def _hankel_draw(rng):
+    """argument for the hankel_kw setter: None (reset), partial or complete dictionaries"""
+    i = rng.randint(6)
+    return [None, {"N": 100}, {"h": 0.002}, {"N": 300, "h": 0.0005}, dict(HANKEL_DEFAULT),
+            {"N": 200, "h": 0.001}][i]
+
+
+def gen_history(rng, cls, length, force_dim=True):
+    """(constructor parameters, list of in-place operations).  Operations are (name, value): dim, len_scale, rescale,
+    var, nugget, opt:<name>, opts (several shape arguments), hankel_kw, anis, integral_scale.  With `force_dim` the
+    history contains at least one change of dimension."""
+    dims = VALID_DIMS.get(cls, (1, 2, 3))
+    lsd = lambda: float(np.exp(rng.uniform(np.log(0.3), np.log(8.0))))
+    rsd = lambda: float(np.exp(rng.uniform(np.log(0.3), np.log(3.0))))
+    init = dict(dim=None if rng.rand() < 0.2 else int(rng.choice(dims)), len_scale=lsd(),
+                rescale=None if rng.rand() < 0.5 else rsd(), var=float(rng.choice([1.0, 0.3, 7.5])),
+                opt=_opt_draw(rng, cls), hankel_kw=None if rng.rand() < 0.7 else _hankel_draw(rng))
+    kinds = ["dim", "dim", "len_scale", "rescale", "var", "hankel_kw", "nugget", "anis"]
+    if cls in OPT_NAMES:
+        kinds += ["opt", "opt"]
+    if cls in INT_SCALE_OK:
+        kinds += ["integral_scale"]
+    ops = []
+    cur = 3 if init["dim"] is None else init["dim"]
+    for i in range(length):
+        kind = kinds[rng.randint(len(kinds))]
+        if force_dim and i == 0 and len(dims) + (cls not in VALID_DIMS) > 1:
+            kind = "dim"
+        if kind == "dim":
+            pool = [d for d in dims + ((4,) if cls not in VALID_DIMS else ()) if d != cur]
+            if not pool:
+                kind = "len_scale"
+            else:
+                cur = int(pool[rng.randint(len(pool))])
+                ops.append(("dim", cur))
+                continue
+        if kind == "len_scale":
+            v = lsd()
+            ops.append(("len_scale", [v, v * 0.5] if (cur == 2 and rng.rand() < 0.3) else v))
+        elif kind == "rescale":
+            ops.append(("rescale", None if rng.rand() < 0.2 else rsd()))
+        elif kind == "var":
+            ops.append(("var", float(np.exp(rng.uniform(np.log(0.05), np.log(20.0))))))
+        elif kind == "nugget":
+            ops.append(("nugget", float(rng.uniform(0.0, 2.0))))
+        elif kind == "anis":
+            ops.append(("anis", float(rng.uniform(0.2, 1.0))))
+        elif kind == "hankel_kw":
+            ops.append(("hankel_kw", _hankel_draw(rng)))
+        elif kind == "integral_scale":
+            ops.append(("integral_scale", lsd()))
+        elif kind == "opt":
+            new = _opt_draw(rng, cls)
+            if rng.rand() < 0.5:
+                name = OPT_NAMES[cls][rng.randint(len(OPT_NAMES[cls]))]
+                ops.append(("opt:" + name, new[name]))
+            else:
+                ops.append(("opts", new))
+    # a history that ends in a transit dimension (4) gets one more change back to a dimension of the property
+    if cur == 4:
+        ops.append(("dim", int(rng.choice(dims))))
+    return init, ops
+
+
+class Tracked:
+    """expected parameters of a model, followed by the harness itself through a history (not read back from the
+    object, except `var_raw`, which no spectral density depends on, and len_scale after `integral_scale = x`)"""
+
+    def __init__(self, cls, init):
+        self.cls = cls
+        self.dim = 3 if init["dim"] is None else init["dim"]
+        self.len_scale = init["len_scale"]
+        self.rescale = init["rescale"]
+        self.opt = dict(init["opt"])
+        self.hankel = dict(HANKEL_DEFAULT)
+        if init["hankel_kw"] is not None:
+            self.hankel.update(init["hankel_kw"])
+
+    def apply(self, m, name, val):
+        if name == "dim":
+            self.dim = val
+        elif name == "len_scale":
+            self.len_scale = val[0] if isinstance(val, list) else val
+        elif name == "rescale":
+            self.rescale = val
+        elif name == "hankel_kw":
+            if val is None:
+                self.hankel = dict(HANKEL_DEFAULT)
+            else:
+                self.hankel.update(val)
+        elif name.startswith("opt:"):
+            self.opt[name[4:]] = val
+        elif name == "opts":
+            self.opt.update(val)
+        elif name == "integral_scale":
+            self.len_scale = float(m.len_scale)
+
+    def fresh(self, m):
+        kw = dict(len_scale=self.len_scale, var_raw=float(m.var_raw), hankel_kw=dict(self.hankel), **self.opt)
+        if self.rescale is not None:
+            kw["rescale"] = self.rescale
+        return make(self.cls, self.dim, **kw)
+
+
+def _construct(cls, init):
+    kw = dict(len_scale=init["len_scale"], var=init["var"], **init["opt"])
+    if init["rescale"] is not None:
+        kw["rescale"] = init["rescale"]
+    if init["hankel_kw"] is not None:
+        kw["hankel_kw"] = dict(init["hankel_kw"])
+    with warnings.catch_warnings():
+        warnings.simplefilter("ignore")
+        if init["dim"] is None:
+            return getattr(_gs(), cls)(**kw)
+        return getattr(_gs(), cls)(dim=init["dim"], **kw)
+
+
+def _apply(m, name, val):
+    with warnings.catch_warnings():
+        warnings.simplefilter("ignore")
+        if name.startswith("opt:"):
+            setattr(m, name[4:], val)
+        elif name == "opts":
+            for k, v in val.items():
+                setattr(m, k, v)
+        elif name == "hankel_kw":
+            m.hankel_kw = None if val is None else dict(val)
+        else:
+            setattr(m, name, val)
+
+
+def _observe(m, k, u):
+    """every evaluation path of the spectral API on one model object"""
+    out = {}
+    with warnings.catch_warnings(), np.errstate(all="ignore"):
+        warnings.simplefilter("ignore")
+        for what in WHATS:
+            out[what] = _real_eval(m, what, u if what == "ppf" else k)
+        out["has_cdf"], out["has_ppf"] = bool(m.has_cdf), bool(m.has_ppf)
+        pdf_f, cdf_f, ppf_f = m.dist_func
+        out["dist_func.pdf"] = np.asarray(pdf_f(k), dtype=float)
+        out["dist_func.cdf"] = None if cdf_f is None else np.asarray(cdf_f(k), dtype=float)
+        out["dist_func.ppf"] = None if ppf_f is None else np.asarray(ppf_f(u), dtype=float)
+    return out
+
+
+def _same(a, b):
+    if a is None or b is None or isinstance(a, bool):
+        return a is b if isinstance(a, bool) else (a is None and b is None)
+    return a.shape == b.shape and np.array_equal(a, b, equal_nan=True)
+
+
+def _jsonop(op):
+    name, val = op
+    return [name, _jsonable(val) if isinstance(val, dict) else val]
+
+
+def history_search(ctx, n_hist, viol, deep=False):
+    """G: construct / change in place / evaluate histories.  After EVERY operation of a history, every spectral
+    function of the modified object must (i) equal, bit for bit, the same function of a model freshly constructed with the
+    resulting parameters, (ii) satisfy the definitions (spectrum = var*density, radial pdf = sphere area*|density|),
+    and — at states whose dimension is one the class accepts and <= 3 — (iii) be the Fourier pair of the object's
+    CURRENT correlation in its CURRENT dimension (independent quadrature, same tolerances as for fresh models, the
+    hankel default only while its settings are the default ones), (iv) for the analytic classes at the last state:
+    the radial pdf integrates to one."""
+    rng = np.random.RandomState(ctx.seed + 44)
+    ev = 0
+    worst = {"analytic": 0.0, "default": 0.0, "default-midband": 0.0, "tpl-gauss-approx": 0.0}
+    worst_int = 0.0
+    stats = {"histories": 0, "states": 0, "dim-changes": 0, "oracle-states": 0, "setter-raised": 0}
+    ks_rel = np.array([0.4, 1.3, 3.5])
+    for cls in CLASSES:
+        for h in range(n_hist):
+            init, ops = gen_history(rng, cls, 1 + rng.randint(4), force_dim=(h % 2 == 0))
+            case = dict(cls=cls, init=dict(init, opt=_jsonable(init["opt"])), ops=[])
+            try:
+                m = _construct(cls, init)
+            except Exception as e:
+                viol.append({"key": f"history:{cls}:constructor", "what": f"{type(e).__name__}: {e}", "case": case})
+                continue
+            tr = Tracked(cls, init)
+            stats["histories"] += 1
+            oracle_done = 0
+            for j, op in enumerate(ops):
+                case = dict(case, ops=case["ops"] + [_jsonop(op)])
+                try:
+                    _apply(m, *op)
+                except Exception as e:
+                    # a raising setter belongs to C14 (parameter state); the history ends here
+                    stats["setter-raised"] += 1
+                    break
+                tr.apply(m, *op)
+                stats["states"] += 1
+                stats["dim-changes"] += op[0] == "dim"
+                if m.dim != tr.dim:
+                    viol.append({"key": f"history:dim:{cls}", "what": f"model.dim = {m.dim} after assigning {tr.dim}", "case": case})
+                    break
+                try:
+                    f = tr.fresh(m)
+                except Exception as e:
+                    viol.append({"key": f"history:{cls}:fresh-constructor", "what": "a model with the parameters reached by "
+                                 f"the history cannot be constructed: {type(e).__name__}: {e}", "case": case})
+                    break
+                ell = f.len_rescaled
+                # |k| <= 1e-8 is a separate, slow branch (scipy.quad) of the hankel package: for the classes on the numerical
+                # default it is evaluated through spectral_density only (every other function calls spectral_density)
+                k = np.concatenate([[0.0, 5e-9] if cls in ANALYTIC else [], [3e-8], np.array([0.05, 0.4, 1.3, 3.5, 8.0]) / ell,
+                                    np.exp(rng.uniform(np.log(0.02), np.log(20.0), 3)) / ell])
+                u = np.concatenate([[1e-6, 0.5, 0.999], rng.uniform(0.001, 0.995, 3)])
+                a, b = _observe(m, k, u), _observe(f, k, u)
+                if cls not in ANALYTIC:
+                    with warnings.catch_warnings(), np.errstate(all="ignore"):
+                        warnings.simplefilter("ignore")
+                        a["density(0)"] = np.asarray(m.spectral_density(np.array([0.0])), dtype=float)
+                        b["density(0)"] = np.asarray(f.spectral_density(np.array([0.0])), dtype=float)
+                ev += sum(len(k) for v in a.values() if isinstance(v, np.ndarray))
+                for what in a:
+                    if not _same(a[what], b[what]):
+                        if isinstance(a[what], np.ndarray) and isinstance(b[what], np.ndarray) and a[what].shape == b[what].shape:
+                            with np.errstate(all="ignore"):
+                                i = int(np.nanargmax(np.abs(a[what] - b[what])))
+                            x = u if what in ("ppf", "dist_func.ppf") else (np.array([0.0]) if what == "density(0)" else k)
+                            det = dict(x=float(x[i]), x_len=float(x[i] * ell), modified_in_place=float(a[what][i]),
+                                       freshly_built=float(b[what][i]))
+                        else:
+                            det = dict(modified_in_place=repr(a[what]), freshly_built=repr(b[what]))
+                        viol.append({"key": f"history-vs-fresh:{what}:{cls}",
+                                     "what": f"{what} of a model modified in place differs from the same function of a model "
+                                             "freshly constructed with the resulting parameters",
+                                     "case": dict(case, dim=tr.dim, resulting=dict(len_scale=tr.len_scale, rescale=tr.rescale,
+                                                  opt=_jsonable(tr.opt), hankel_kw=tr.hankel), **det)})
+                # definitions on the modified object (independent area formula)
+                ev += _defs_check(m, cls, tr.dim, case, k, viol, prefix="history:")
+                # the Fourier pair in the CURRENT dimension
+                d = tr.dim
+                last = j == len(ops) - 1
+                settings_default = cls in ANALYTIC or tr.hankel == HANKEL_DEFAULT
+                if d <= 3 and d in VALID_DIMS.get(cls, (1, 2, 3)) and settings_default \
+                        and (last or (op[0] in ("dim", "hankel_kw") and oracle_done < (3 if deep else 1))):
+                    oracle_done += 1
+                    stats["oracle-states"] += 1
+                    ev += _pair_check(m, cls, d, dict(case, dim=d), ks_rel, viol, worst, prefix="history:", skip_known=True)
+                    if last and cls in ANALYTIC and not (cls == "Matern" and m.nu > 20.0) and (deep or not ctx.quick or h < 2):
+                        with warnings.catch_warnings(), np.errstate(all="ignore"):
+                            warnings.simplefilter("ignore")
+                            probe = np.asarray(m.spectral_density(np.geomspace(1e-9, 1e9, 109) / ell), dtype=float)
+                            total, tol, kind = (None, None, None) if not np.isfinite(probe).all() else _pdf_mass(m, cls, d, ell)
+                        if total is not None:
+                            ev += 1
+                            worst_int = max(worst_int, abs(total - 1.0))
+                            if not abs(total - 1.0) <= tol:
+                                viol.append({"key": f"history:rad-pdf-mass:{cls}", "what": f"integral of spectral_rad_pdf = "
+                                             f"{total!r}, expected 1 (tol {tol})", "case": dict(case, dim=d, integral=float(total))})
+    return ev, worst, worst_int, stats
+
+
+def tail_search(ctx, n_random, viol):
+    """H: the clause "the radial spectral pdf integrates to one", far tail.  For every class and dimension the mass that
+    spectral_rad_pdf puts on K <= k <= 100 K, K = 50/len_rescaled (log-spaced Gauss-Legendre, 30 panels per decade), is
+    compared with the mass the TRUE spectral measure has there, ball_mass(100 K) - ball_mass(K), computed from
+    `correlation` alone.  More than 1e-3 of spurious mass is a violation `rad-pdf-spurious-tail:<Class>:d<dim>`."""
+    rng = np.random.RandomState(ctx.seed + 45)
+    ev = 0
+    worst = {"analytic": 0.0, "default": 0.0}
+    measured = {}
+    for cls in CLASSES:
+        for d in VALID_DIMS.get(cls, (1, 2, 3)):
+            cfgs = _configs(rng, cls, d, n_random)
+            cfgs = cfgs[:1] + cfgs[len(cfgs) - n_random:] if n_random else cfgs[:1]
+            for kw in cfgs:
+                try:
+                    m = make(cls, d, **kw)
+                except Exception:
+                    continue
+                if cls == "Matern" and m.nu > 20.0:
+                    continue
+                ell = m.len_rescaled
+                sup = ell if cls in COMPACT else None
+                K = 50.0 / ell
+                with warnings.catch_warnings(), np.errstate(all="ignore"):
+                    warnings.simplefilter("ignore")
+                    if cls == "JBessel":
+                        true = 0.0          # spectrum supported on k <= 1/len
+                    else:
+                        cor = _safe_cor(m, ell)
+                        true = ball_mass(cor, d, 100.0 * K, ell, sup) - ball_mass(cor, d, K, ell, sup)
+                    rep = log_integral(m.spectral_rad_pdf, K, 100.0 * K, per_decade=30)
+                ev += 2400
+                kind = "analytic" if cls in ANALYTIC else "default"
+                spurious = rep - true
+                worst[kind] = max(worst[kind], abs(spurious))
+                if spurious > measured.get((cls, d), (-1.0,))[0]:
+                    measured[(cls, d)] = (float(spurious), float(rep), float(true))
+                if not abs(spurious) <= 1e-3:
+                    viol.append({"key": f"rad-pdf-spurious-tail:{cls}:d{d}",
+                                 "what": f"spectral_rad_pdf carries mass {rep:.4g} on 50 <= k*len <= 5000 where the spectral "
+                                         f"measure of the correlation has {true:.4g} (spurious {spurious:.4g} > 1e-3): the "
+                                         "pdf does not integrate to one",
+                                 "case": dict(cls=cls, dim=d, kw=_jsonable(kw), K=float(K), reported_mass=float(rep),
+                                              true_mass=float(true))})
+    return ev, worst, measured
+
+
 def mechanism_search(ctx, viol):
     """F: the default path really is hankel's SymmetricFourierTransform of `correlation` with HANKEL_DEFAULT merged with
     the user's hankel_kw"""
@@ -848,13 +1526,18 @@ def search(ctx, deep=False):
     ev_b, worst_int = pdf_search(ctx, n_random, viol)
     ctx.log(f"search B-E (pdf/cdf/ppf) {ev_b} evaluations, worst |mass-1| {worst_int}")
     ev_f = mechanism_search(ctx, viol)
+    ev_t, worst_t, measured_t = tail_search(ctx, ctx.scale(0, 3) * (2 if deep else 1), viol)
+    ctx.log(f"search H (far tail of the radial pdf) {ev_t} evaluations, worst spurious mass {worst_t}; per class/dim "
+            + ", ".join(f"{c}:d{d}={v[0]:.3g}" for (c, d), v in sorted(measured_t.items()) if abs(v[0]) > 1e-3))
+    ev_g, worst_h, worst_int_h, hstats = history_search(ctx, ctx.scale(6, 40) * (2 if deep else 1), viol, deep=deep)
+    ctx.log(f"search G (in-place histories) {ev_g} evaluations, {hstats}, worst errors {worst_h}, worst |mass-1| {worst_int_h:.2e}")
     # one violation per key is enough for the verdict; keep the first (smallest) case of each
     seen, out = set(), []
     for v in viol:
         if v["key"] not in seen:
             seen.add(v["key"])
             out.append(v)
-    return {"evaluations": ev_a + ev_o + ev_b + ev_f, "violations": out[:40],
+    return {"evaluations": ev_a + ev_o + ev_b + ev_f + ev_g + ev_t, "violations": out[:60],
             "summary": "17 classes x d=1..3 x fixed+random shape/len_scale/rescale: spectral_density against an independent radial "
                        "Fourier (Hankel) quadrature of `correlation` at k*len in [0.05, 8] — tolerance 1e-6 relative (+1e-10*peak) "
                        "for the 8 analytic overrides (5e-3 inside the documented first-order region z<=0.1 of tpl_gau_spec_dens; "
@@ -865,8 +1548,20 @@ def search(ctx, deep=False):
                        "TPLGaussian 2e-3, HyperSpherical 1e-4 tail cut, not attempted for the hankel default and hurst < 0.25); "
                        "rad_pdf = sphere area*|density| with r~0 rule; cdf' = pdf by central differences (1e-6), cdf(0)=0, "
                        "cdf(inf)=1, cdf(R) = int_0^R pdf, ppf(cdf r) = r, cdf(ppf u) = u; density >= 0; spectrum = var*density; "
-                       f"hankel settings honoured. worst analytic rel. error {worst['analytic']:.2e}, worst default error/peak "
-                       f"{worst['default']:.2e}, worst |mass-1| {worst_int['analytic']:.2e}"
+                       "hankel settings honoured; additionally 0.02*peak for the hankel default on 0.9 <= k*len <= 3.5 in the "
+                       "dimensions the class accepts.  FAR TAIL: mass of spectral_rad_pdf on 50 <= k*len <= 5000 against the mass of "
+                       "the true spectral measure there (ball_mass oracle from `correlation`, 3e-12 on closed forms), 1e-3 "
+                       "(finding S2 for all hankel-default classes).  IN-PLACE HISTORIES (17 classes): constructor (dim given or "
+                       "defaulted, hankel_kw or not) + 1-4 setter calls (dim 1..4 incl. transit through 4, len_scale scalar/list, "
+                       "rescale/None, var, nugget, anis, shape arguments one by one or together, len_low, hankel_kw None/partial/"
+                       "complete, integral_scale); after EVERY call density/spectrum/rad_pdf/ln_rad_pdf/cdf/ppf/has_cdf/has_ppf/"
+                       "dist_func of the modified object == those of a model freshly built from the harness-tracked parameters, bit "
+                       "for bit; definitions re-checked; density against the quadrature of the CURRENT correlation in the CURRENT "
+                       "dimension after dim/hankel_kw changes and at the last state (same tolerances; hankel default only with "
+                       "default settings; Matern nu>20 left to the fresh-model search); radial pdf mass of the analytic classes at "
+                       f"the last state. {hstats}. worst analytic rel. error {worst['analytic']:.2e}, worst default error/peak "
+                       f"{worst['default']:.2e} (mid band {worst['default-midband']:.2e}), worst |mass-1| {worst_int['analytic']:.2e}; "
+                       f"histories: analytic {worst_h['analytic']:.2e}, default/peak {worst_h['default']:.2e}, |mass-1| {worst_int_h:.2e}"
                        + ("; NOTES (other properties): " + "; ".join(NOTES) if NOTES else "")}
 
 
@@ -875,7 +1570,51 @@ def replay(ctx, payload):
     bad = 0
     for v in payload.get("violations", []):
         c = v.get("case", {})
-        if "cls" not in c or "k" not in c or not isinstance(c.get("k"), float):
+        if "ops" in c and "init" in c:
+            # a construct / change in place history: re-run it and compare with a freshly built model
+            cls, init = c["cls"], dict(c["init"])
+            m = _construct(cls, init)
+            tr = Tracked(cls, init)
+            for name, val in c["ops"]:
+                try:
+                    _apply(m, name, val)
+                except Exception:
+                    break
+                tr.apply(m, name, val)
+            f = tr.fresh(m)
+            ell = f.len_rescaled
+            k = np.array([0.0, 0.05, 0.4, 1.3, 3.5, 8.0]) / ell
+            u = np.array([1e-6, 0.25, 0.5, 0.9])
+            a, b = _observe(m, k, u), _observe(f, k, u)
+            diff = [w for w in a if not _same(a[w], b[w])]
+            print(f"replay {v['key']}: {cls} init={init} ops={c['ops']} -> dim {m.dim}; functions differing from a fresh model: {diff}")
+            if diff:
+                print("   modified in place:", a[diff[0]], "\n   freshly built:   ", b[diff[0]])
+                bad += 1
+            else:
+                viol = []
+                worst = {"analytic": 0.0, "default": 0.0, "default-midband": 0.0, "tpl-gauss-approx": 0.0}
+                if tr.dim <= 3:
+                    _pair_check(m, cls, tr.dim, dict(c, dim=tr.dim), [0.4, 1.3, 3.5], viol, worst, prefix="history:")
+                print("   against the transform of the current correlation:", [x["key"] for x in viol], worst)
+                bad += bool(viol)
+            continue
+        if "cls" not in c:
+            continue
+        if "true_mass" in c:
+            m = make(c["cls"], c["dim"], **c.get("kw", {}))
+            ell = m.len_rescaled
+            sup = ell if c["cls"] in COMPACT else None
+            K = 50.0 / ell
+            with warnings.catch_warnings(), np.errstate(all="ignore"):
+                warnings.simplefilter("ignore")
+                true = 0.0 if c["cls"] == "JBessel" else (ball_mass(m.correlation, c["dim"], 100 * K, ell, sup)
+                                                          - ball_mass(m.correlation, c["dim"], K, ell, sup))
+                rep = log_integral(m.spectral_rad_pdf, K, 100 * K, per_decade=30)
+            print(f"replay {v['key']}: mass of spectral_rad_pdf on [{K:.4g}, {100 * K:.4g}] = {rep!r}, of the true spectral measure {true!r}")
+            bad += abs(rep - true) > 1e-3
+            continue
+        if "k" not in c or not isinstance(c.get("k"), float):
             continue
         m = make(c["cls"], c["dim"], **c.get("kw", {}))
         ell = m.len_rescaled
